@@ -5,8 +5,7 @@
   * `visitsPre` / `visitsPost`   `utils.traverse` (hierarchical.py:22-85) and `pg.traverse`
                                  (symbolic/base.py:1337-1432) — same walk on plain values;
   * `query`                      `KeyPath._query` (value_location.py:334-383) on plain values,
-                                 including its quirks (`key < len(src)` also for dicts; `key in src`
-                                 on lists / strings);
+                                 including its quirks (`key in src` on lists / strings);
   * `queryLeaves`                `pg.query(x, where=is-leaf)`: results keyed by the printed path;
   * `flatten`                    hierarchical.py:170-269;
   * `canonicalize`               hierarchical.py:304-442 with `merge_tree` (591-636),
@@ -95,18 +94,11 @@ def isInfix : List Char → List Char → Bool
 def query : Val → Path → Except Err Val
   | v, [] => .ok v
   | .dict items, k :: ks =>
-    match k with
-    | .i z =>
-      -- `if key < len(src): return self._query(..., src[key], ...)`; otherwise KeyError
-      if z < items.length then
-        match Assoc.lookup items k with
-        | some c => query c ks
-        | none => .error .key
-      else .error .key
-    | .s _ =>
-      match Assoc.lookup items k with
-      | some c => query c ks
-      | none => .error .key
+    -- a `dict` is looked up by key whatever the key type (fix C10-F33; before the fix an int
+    -- key was first tested with `key < len(src)` as if `src` were a sequence)
+    match Assoc.lookup items k with
+    | some c => query c ks
+    | none => .error .key
   | .list items, k :: ks =>
     match k with
     | .i z =>
